@@ -47,6 +47,11 @@ def run(ck: Checker, prog: Program, tier: str):
     from . import c06
     with ck.borrow(c06, "C08.R3+"):
         ck.guard(c06._r6_outer, ck, prog, prog.func(c06.INNER), prog.func(c06.OUTER))
+    # "that window does not enter the resonance statistics": an absent peak is NaN and the estimators give NaN entries no
+    # weight (estimator rules of C05)
+    from . import c05
+    with ck.borrow(c05, "C08.R2+"):
+        ck.guard(S.check_estimators, ck, prog, "C05.R3")
 
 
 def _ex(prog, f, cls, src, self_name="self"):
